@@ -812,13 +812,28 @@ func ruleC17Status(c *Ctx) {
 			if len(r.Results) < 1 {
 				continue
 			}
-			cst, ok := strip(r.Results[0]).(*ssa.Const)
-			if !ok {
-				c.Bad(rule, FnName(fn)+" | state is a constant", c.P.InstrPos(r), "the state returned is computed: "+NewRenderer(fn).V(r.Results[0]), nil)
-				continue
+			// a state that reaches the return through a merge of constants (`st = Dirty; goto out`)
+			// is decided where each constant enters the merge
+			var visit func(v ssa.Value, site ssa.Instruction, depth int)
+			visit = func(v ssa.Value, site ssa.Instruction, depth int) {
+				switch x := strip(v).(type) {
+				case *ssa.Const:
+					st := strings.Trim(constString(x), `"`)
+					by[st] = append(by[st], site)
+				case *ssa.Phi:
+					if depth > 3 {
+						c.Bad(rule, FnName(fn)+" | state is a constant", c.P.InstrPos(r), "the state returned is computed: "+NewRenderer(fn).V(v), nil)
+						return
+					}
+					for i, e := range x.Edges {
+						p := x.Block().Preds[i]
+						visit(e, p.Instrs[len(p.Instrs)-1], depth+1)
+					}
+				default:
+					c.Bad(rule, FnName(fn)+" | state is a constant", c.P.InstrPos(r), "the state returned is computed: "+NewRenderer(fn).V(v), nil)
+				}
 			}
-			st := strings.Trim(constString(cst), `"`)
-			by[st] = append(by[st], r)
+			visit(r.Results[0], r, 0)
 		}
 		for st, rets := range by {
 			switch st {
